@@ -157,7 +157,23 @@ struct Explorer {
                     }
                     WSnap post = snapWorld(w);
                     st.transitions++; st.outcomes[oc]++; if (oc != OK) st.refused++;
-                    size_t b = sink.size(); transitionOracles(pre, ci, oc, post, w, ops[id], sink, st); emitSink(id, b);
+                    size_t b = sink.size(); transitionOracles(pre, ci, oc, post, w, ops[id], sink, st);
+                    if (orc.c14 && getenv("VF_NO_TWIN") == nullptr && ci.kind != K_LOAD_ROOT && h.size() < (size_t)atoi(getenv("VF_TWIN_DEPTH") ? getenv("VF_TWIN_DEPTH") : "3")) {   // "saving does not change the object": the same call made AFTER a save (and a print) must give the same object and the same file as the call made without it
+                        World w2(wdir); WSnap pre2;
+                        if (replay(w2, h, &pre2) && pre2.key == pre.key) {
+                            std::string ps = w2.path("twin_before.c3d"); freshDestination(ps); Outcome so = guarded([&] { w2.c->write(ps); }); guarded([&] { silencedPrint(*w2.c); });
+                            if (so == OK) {
+                                CallInfo ci2; Outcome oc2 = guarded([&] { ops[id].apply(w2, pre2, ci2); }); WSnap post2 = snapWorld(w2);
+                                if (oc2 != oc || post2.key != post.key) V(sink, "C14", "earlier_save_changes_later_call/" + ops[id].cls + "/object", std::string("after a save the call ends in ") + outcomeName(oc2) + ", without it in " + outcomeName(oc) + (post2.key != post.key ? "; the resulting objects differ" : ""));
+                                else if (uniformFrames(post.o)) {
+                                    std::string pa = w.path("twin_a.c3d"), pb = w2.path("twin_b.c3d"); freshDestination(pa); freshDestination(pb);
+                                    Outcome oa = guarded([&] { w.c->write(pa); }), ob = guarded([&] { w2.c->write(pb); }); std::string ba, bb; if (oa == OK) readAll(pa, ba); if (ob == OK) readAll(pb, bb);
+                                    if (oa != ob || ba != bb) V(sink, "C14", "earlier_save_changes_later_call/" + ops[id].cls + "/file", "the same object, reached with and without an intermediate save, is written as different files");
+                                }
+                            }
+                        }
+                    }
+                    emitSink(id, b);
                     uint16_t oid = (uint16_t)id; uint8_t o8 = (uint8_t)oc;
                     trs.insert(trs.end(), (unsigned char*)&oid, (unsigned char*)&oid + 2); trs.push_back(o8);
                     trs.insert(trs.end(), (unsigned char*)&post.key, (unsigned char*)&post.key + sizeof(Key)); nTrans++;
